@@ -9,6 +9,7 @@ import (
 	"fmt"
 	"os"
 	"runtime/debug"
+	"sort"
 	"strings"
 	"testing"
 
@@ -266,6 +267,8 @@ func TestCheck(t *testing.T) {
 	}
 	// (a') block string contents
 	c.blockStrings(&idx)
+	// (a'') descriptions that spell a keyword
+	c.keywordDescriptions(&idx)
 	// (b) grammar derivations
 	c.derivations(&idx)
 	// (c) seed edits
@@ -367,6 +370,96 @@ func (c *checker) blockStrings(idx *int64) {
 			return
 		}
 	}
+}
+
+// Definitions that can stand in front of a described definition: every ending
+// after which the parser looks ahead for a contextual keyword or decides
+// whether the definition goes on (no body / implements list / member list /
+// directive / location list / body).
+var kwFirsts = []string{
+	"type A", "interface A", "union A", "enum A", "input A", "scalar A",
+	"type A implements B", "interface A implements B", "type A @d", "union A = B", "enum A{B}", "type A{x:Int}",
+	"directive @a on FIELD", "directive @a repeatable on FIELD", "schema{query:Q}",
+	"extend type A @d", "extend type A implements B", "extend interface A @d", "extend union A = B", "extend scalar A @d", "extend schema @d",
+	"fragment F on T{a}", "{a}",
+}
+
+// Definitions and extensions that carry the description.
+var kwSeconds = []string{
+	"schema{query:Q}", "type B{x:Int}", "type B", "interface B{x:Int}", "union B = C", "enum B{C}", "input B{x:Int}", "scalar B", "directive @b on FIELD",
+	"extend type B{x:Int}", "extend interface B{x:Int}", "extend union B = C", "extend enum B{C}", "extend input B{x:Int}", "extend scalar B @d", "extend schema @d",
+	"query Q{a}", "fragment G on T{a}",
+}
+
+// Members of a definition that carry the description, behind a first member.
+var kwMemberHosts = []string{
+	"type T{f:Int %s g:Int}", "interface T{f:Int %s g:Int}", "input T{a:Int %s b:Int}", "enum T{A %s B}",
+	"type T{f(a:Int %s b:Int):Int}", "directive @t(a:Int %s b:Int) on FIELD", "type T{%s f:Int}", "enum T{%s A}",
+	"extend type T{f:Int %s g:Int}", "extend enum T{A %s B}", "{a(b:%s)}", "query($v:S=%s){a}", "type T{f(a:S=%s):Int}",
+}
+
+// keywordDescriptions: SDL documents = a definition followed by a definition or
+// extension (or a member behind a member) that carries a description, quoted
+// and block form, whose content is each keyword of the grammar. Every oracle
+// of the check applies; the one that matters is checkStringContentNeutral.
+// On top of it the outcome is compared with what the generator built: two
+// root nodes (one for the member hosts), the described one being the second.
+func (c *checker) keywordDescriptions(idx *int64) {
+	var kws []string
+	for k := range grammarKeywords {
+		kws = append(kws, k)
+	}
+	sort.Strings(kws)
+	c.run.Bound("keyword_description_keywords", len(kws))
+	c.run.Bound("keyword_description_first_definitions", len(kwFirsts))
+	c.run.Bound("keyword_description_second_definitions", len(kwSeconds))
+	c.run.Bound("keyword_description_member_hosts", len(kwMemberHosts))
+	forms := []string{`"%s"`, `"""%s"""`, "\"\"\"\n  %s\n\"\"\""}
+	for _, kw := range kws {
+		for _, form := range forms {
+			str := strings.Replace(form, "%s", kw, 1)
+			for _, first := range kwFirsts {
+				for _, second := range kwSeconds {
+					for _, sep := range []string{" ", "\n"} {
+						if c.run.Mine(*idx) {
+							in := first + sep + str + sep + second
+							c.judge(in, "keyword-description")
+							c.expectRoots(in, 2, kw)
+						}
+						*idx++
+					}
+				}
+			}
+			for _, host := range kwMemberHosts {
+				if c.run.Mine(*idx) {
+					in := strings.Replace(host, "%s", str, 1)
+					c.judge(in, "keyword-description-member")
+					c.expectRoots(in, 1, kw)
+				}
+				*idx++
+			}
+		}
+		if c.run.Expired() {
+			return
+		}
+	}
+}
+
+// expectRoots compares an accepted generated document with what the generator
+// built: the number of definitions. (Whether it is accepted at all is judged by
+// checkStringContentNeutral against the same document with a neutral string.)
+func (c *checker) expectRoots(in string, roots int, kw string) {
+	p := parse(in)
+	if !p.ok || len(p.doc.RootNodes) == roots {
+		return
+	}
+	c.run.Count("failing_inputs:generated document has another number of definitions", 1)
+	sh, _ := safeShape(p.doc)
+	c.run.Violate(vk.Violation{
+		Clause: clauseRT, Site: "generated document vs its parse: number of definitions", Class: "string whose content is a keyword, behind a definition or a member",
+		Detail: fmt.Sprintf("generated document %q has %d definition(s), its parse has %d: %s", in, roots, len(p.doc.RootNodes), strings.TrimSpace(sh)),
+		Input:  caseInput{Hex: hex.EncodeToString([]byte(in)), Text: in, Origin: "keyword-description", Key: clauseRT + "\x00generated"},
+	})
 }
 
 func (c *checker) derivations(idx *int64) {
